@@ -9,7 +9,7 @@ PLAN = {
     "C05": ["L05", "L05b"],
     "C06": ["K06", "L06"],
     "C07": ["L07"],
-    "C08": ["L08"],
+    "C08": ["K14b", "L08"],
     "C09": ["L09"],
     "C10": ["L10"],
     "C17": ["K17", "K17b"],
